@@ -46,7 +46,7 @@ func newPMFromDataset(options plugintypes.OperatorOptions) (plugintypes.Operator
 		DFA:                  true,
 	})
 
-	m, _ := memoizeDo(options.Memoizer, "pmds:"+data+"\x00"+strings.Join(dataset, "\n"), func() (any, error) { return builder.Build(dataset), nil })
+	m, _ := memoizeDo(options.Memoizer, "pmds:"+strings.Join(dataset, "\n"), func() (any, error) { return builder.Build(dataset), nil })
 
 	return &pm{matcher: m.(ahocorasick.AhoCorasick), minLen: minPatternLen(dataset)}, nil
 }
